@@ -73,7 +73,7 @@ enum { ANON_A = 1, ANON_B };
     # one declaration per kind of type constructor, each over a typedef that nothing else mentions: the
     # traversal has to follow the edge of every TypeKind (vector, array, pointer, qualified, function return)
     "kinds": {
-        "ext": ".h", "flags": [],
+        "ext": ".h", "flags": [], "one_file_per_line": True,
         "text": """typedef float sample_t;
 typedef sample_t frame_t __attribute__((vector_size(16)));
 struct mixer { frame_t gain; int channels; };
@@ -322,8 +322,22 @@ def rustc_batch(texts, workdir, name, edition="2021"):
 def replay_family(res, tier, name, fam):
     w = C.workdir("c09-fam-" + name)
     hp = os.path.join(w, "prog" + fam["ext"])
-    with open(hp, "w") as f:
-        f.write(fam["text"])
+    by_file = fam.get("one_file_per_line")
+    if by_file:
+        # every declaration (one per line, in the order of the `decls` table) lives in a file of its own, so that
+        # a set of roots can also be named with --allowlist-file
+        lines = [l for l in fam["text"].splitlines() if l.strip()]
+        names = list(fam["decls"])
+        if len(lines) != len(names):
+            raise C.ToolError("family %s: %d lines for %d declarations" % (name, len(lines), len(names)))
+        with open(hp, "w") as f:
+            for dn, line in zip(names, lines):
+                with open(os.path.join(w, "d_%s.h" % dn), "w") as g:
+                    g.write(line + "\n")
+                f.write('#include "d_%s.h"\n' % dn)
+    else:
+        with open(hp, "w") as f:
+            f.write(fam["text"])
     fj = os.path.join(w, "family.json")
     with open(fj, "w") as f:
         json.dump({"decls": fam["decls"], "maxroots": 2 if tier == "thorough" else 1}, f)
@@ -344,8 +358,14 @@ def replay_family(res, tier, name, fam):
     jobs = [{"id": "full", "args": base_args, "callbacks": None}]
     for i, c in enumerate(cases):
         a = list(base_args)
-        for p in c["pats"]:
-            a += [FLAG[p["flag"]], p["re"]]
+        if by_file and i % 2 == 1 and c["roots"] and c.get("fns", True):
+            # the same roots, selected by the files that declare them
+            for rname in c["roots"]:
+                a += ["--allowlist-file", ".*/d_%s\\.h" % rname]
+            c["by_file"] = True
+        else:
+            for p in c["pats"]:
+                a += [FLAG[p["flag"]], p["re"]]
         for b in c["bl"]:
             a += ["--blocklist-item", b]
         if not c["rec"]:
@@ -378,7 +398,8 @@ def replay_family(res, tier, name, fam):
             blocked_names |= set(fam["decls"][b]["emits"])
         missing = sorted(want - set(got))
         extra = sorted(n for n in set(got) - want if not helper_name(n))
-        shape = "%s:rec=%s:bl=%d:fns=%s" % ("+".join(sorted(p["flag"] for p in c["pats"])), c["rec"], len(c["bl"]), c.get("fns", True))
+        shape = "%s:rec=%s:bl=%d:fns=%s" % ("file" if c.get("by_file") else "+".join(sorted(p["flag"] for p in c["pats"])),
+                                          c["rec"], len(c["bl"]), c.get("fns", True))
         if blocked_names & set(got):
             res.violation("blocklisted-emitted:" + shape, {"family": name, "case": c, "names": sorted(blocked_names & set(got))})
         elif missing:
